@@ -4,6 +4,8 @@ CONSTANTS
   Atoms <- Atoms5
   MaxLevel = 3
   Scale = 1
+  PropGuardBug = FALSE
+  EmitFrom = 0
   SavePredBug = FALSE
 VIEW GView
 ACTION_CONSTRAINT Emit
